@@ -10,6 +10,7 @@ decoded to exactly that path), `leaf_encoded` (every leaf operation an encoder m
 and `nested_update_decodes` (the whole of `read_and_apply` on a written payload).
 -/
 import ReplayModel.World
+import ReplayModel.NestedEnc
 import ReplayProofs.Lemmas.World
 import ReplayProofs.C05
 import ReplayProofs.C03
@@ -189,11 +190,6 @@ example : sliceAssign [.int 1, .int 2, .int 3, .int 4] 1 3 [.int 9] = [.int 1, .
 
 /-! ### bit-level layout of a nested update: encoder and closed-form decoding -/
 
-/-- the `w`-bit big-endian representation of `n` (most significant bit first) -/
-def natBits : Nat → Nat → List Bool
-  | 0, _ => []
-  | w+1, n => decide (2 ^ w ≤ n) :: natBits w (n % 2 ^ w)
-
 theorem natBits_length (w n : Nat) : (natBits w n).length = w := by
   induction w generalizing n with
   | zero => rfl
@@ -257,41 +253,6 @@ theorem get_bit (r : BitReader) (b : Bool) (tail : List Bool) (hp : r.pending = 
     ∃ r', r.get 1 = .ok ((if b then 1 else 0), r') ∧ r'.pending = tail ∧ (∀ bs, r.Inv bs → r'.Inv bs) := by
   have : natBits 1 (if b then 1 else 0) = [b] := by cases b <;> simp [natBits]
   exact get_natBits r 1 (if b then 1 else 0) tail (by cases b <;> simp) (by rw [this, hp]; rfl)
-
-/-- what a path of indices means on a typed value: the bits that spell it, the container it
-ends at, the path items reported, and how an updated container is put back — ordinary
-`List.set` / dict assignment at every level -/
-structure Reach where
-  bits : List Bool
-  ty : Ty
-  val : Val
-  names : List String
-  rebuild : Val → Val
-
-def reach : Ty → Val → List Nat → Option Reach
-  | t, v, [] => some ⟨[], t, v, [], id⟩
-  | t, v, i :: rest =>
-    match t.peel, v with
-    | .array et _, .list xs =>
-      match xs[i]? with
-      | none => none
-      | some child =>
-        (reach et child rest).map fun r =>
-          ⟨true :: (natBits (bitsRequired xs.length) i ++ r.bits), r.ty, r.val, natStr i :: r.names,
-            fun nv => .list (xs.set i (r.rebuild nv))⟩
-    | .fixedDict fs _, .dict vs =>
-      if i < vs.length then
-        match fs[i]? with
-        | none => none
-        | some (name, ft) =>
-          match dictGet? vs name with
-          | none => none
-          | some child =>
-            (reach ft child rest).map fun r =>
-              ⟨true :: (natBits (bitsRequired vs.length) i ++ r.bits), r.ty, r.val, name :: r.names,
-                fun nv => .dict (dictSet vs name (r.rebuild nv))⟩
-      else none
-    | _, _ => none
 
 def wrap (R : Reach) (out : NestedOut) : NestedOut := ⟨R.rebuild out.val, R.names ++ out.path, out.notify⟩
 
@@ -427,49 +388,8 @@ theorem decodeAll_encode (et : Ty) : ∀ (vs : List Val) (fuel : Nat),
 
 /-! ### the leaf operations as written by an encoder -/
 
-inductive LeafOp where
-  | dictSet (i : Nat) (nv : Val)
-  | listSet (i : Nat) (nv : Val)
-  | listClear (i : Nat)
-  | slice (i j : Nat) (new : List Val)
-
-def LeafOp.isSlice : LeafOp → Bool
-  | .slice .. => true
-  | _ => false
-
-/-- index fields of the leaf operation on container `v` -/
-def leafBits (v : Val) : LeafOp → List Bool
-  | .dictSet i _ => (match v with | .dict vs => natBits (bitsRequired vs.length) i | _ => [])
-  | .listSet i _ => (match v with | .list xs => natBits (bitsRequired xs.length) i | _ => [])
-  | .listClear i => (match v with | .list xs => natBits (bitsRequired xs.length) i | _ => [])
-  | .slice i j _ => (match v with
-      | .list xs => natBits (bitsRequired (xs.length + 1)) i ++ natBits (bitsRequired (xs.length + 1)) j
-      | _ => [])
-
-/-- element data following the (byte-aligned) bit fields -/
-def leafData (t : Ty) : LeafOp → Bytes
-  | .dictSet i nv => (match t with | .fixedDict fs _ => (match fs[i]? with | some (_, ft) => encodeWire 1 ft nv | none => []) | _ => [])
-  | .listSet _ nv => (match t with | .array et _ => encodeWire 1 et nv | _ => [])
-  | .listClear _ => []
-  | .slice _ _ new => (match t with | .array et _ => new.flatMap (encodeWire 1 et) | _ => [])
-
-/-- the meaning of a leaf operation: ordinary dict / list operations (Python slice assignment) -/
-def leafResult (t : Ty) (v : Val) : LeafOp → Option NestedOut
-  | .dictSet i nv => (match t, v with
-      | .fixedDict fs _, .dict vs => (fs[i]?).map fun nf => ⟨.dict (dictSet vs nf.1 nv), [nf.1], some (.dict (dictSet vs nf.1 nv))⟩
-      | _, _ => none)
-  | .listSet i nv => (match v with
-      | .list xs => some ⟨.list (xs.set i nv), [natStr i], some (.list (xs.set i nv))⟩
-      | _ => none)
-  | .listClear i => (match v with
-      | .list xs => some ⟨.list (xs.set i .none), [natStr i], none⟩
-      | _ => none)
-  | .slice i j new => (match v with
-      | .list xs =>
-        some ⟨.list (sliceAssign xs i j new), [natStr i ++ ":" ++ natStr j], if new.isEmpty then none else some (.list (sliceAssign xs i j new))⟩
-      | _ => none)
-
-/-- what an encoder must respect: indices representable and in range, values of the element
+/-- what an encoder must respect: indices representable in their field (slice bounds may
+exceed the length: Python clamps them) and, for element access, in range, values of the element
 type, element encodings non-empty (no zero-width elements) -/
 def leafOK (t : Ty) (v : Val) : LeafOp → Prop
   | .dictSet i nv => ∃ fs an vs name ft, t = .fixedDict fs an ∧ v = .dict vs ∧ i < vs.length ∧ fs[i]? = some (name, ft) ∧
@@ -477,7 +397,8 @@ def leafOK (t : Ty) (v : Val) : LeafOp → Prop
   | .listSet i nv => ∃ et sz xs, t = .array et sz ∧ v = .list xs ∧ i < xs.length ∧
       hasTy et nv = true ∧ userOK 1 et nv = true ∧ encodeWire 1 et nv ≠ []
   | .listClear i => ∃ et sz xs, t = .array et sz ∧ v = .list xs ∧ i < xs.length
-  | .slice i j new => ∃ et sz xs, t = .array et sz ∧ v = .list xs ∧ i ≤ xs.length ∧ j ≤ xs.length ∧
+  | .slice i j new => ∃ et sz xs, t = .array et sz ∧ v = .list xs ∧
+      i < 2 ^ bitsRequired (xs.length + 1) ∧ j < 2 ^ bitsRequired (xs.length + 1) ∧
       (∀ x ∈ new, hasTy et x = true ∧ userOK 1 et x = true ∧ encodeWire 1 et x ≠ [])
 
 theorem flatMap_enc_empty (et : Ty) (new : List Val) (h : ∀ x ∈ new, encodeWire 1 et x ≠ []) :
@@ -532,8 +453,8 @@ theorem leaf_encoded (t : Ty) (v : Val) (op : LeafOp) (r : BitReader) (bs pre : 
   | slice i j new =>
     obtain ⟨et, sz, xs, rfl, rfl, hi, hj, hall⟩ := hok
     simp only [leafBits, leafData, List.append_assoc] at hp hbs
-    obtain ⟨r1, g1, g2, g3⟩ := get_natBits r _ i _ (lt_two_pow_bitsRequired i _ (by omega)) hp
-    obtain ⟨r2, k1, k2, k3⟩ := get_natBits r1 _ j _ (lt_two_pow_bitsRequired j _ (by omega)) g2
+    obtain ⟨r1, g1, g2, g3⟩ := get_natBits r _ i _ hi hp
+    obtain ⟨r2, k1, k2, k3⟩ := get_natBits r1 _ j _ hj g2
     have hrest := getRest_of_pending r2 bs pre _ pad (k3 bs (g3 bs hinv)) hbs k2 hpad
     have hemp := flatMap_enc_empty et new (fun x hx => (hall x hx).2.2)
     by_cases hnew : new.isEmpty = true
@@ -643,6 +564,147 @@ theorem nested_update_decodes (reg : Registry) (e : Entity) (header : Bytes) (pi
   | some obj => exact ⟨_, _, ho1, rfl⟩
 
 
+/-! ### the encoder: bit packing and the full round trip -/
+
+theorem bitsOfByte_byteOfBits (b0 b1 b2 b3 b4 b5 b6 b7 : Bool) :
+    bitsOfByte (byteOfBits [b0, b1, b2, b3, b4, b5, b6, b7]) = [b0, b1, b2, b3, b4, b5, b6, b7] := by
+  cases b0 <;> cases b1 <;> cases b2 <;> cases b3 <;> cases b4 <;> cases b5 <;> cases b6 <;> cases b7 <;> decide
+
+/-- **Bit packing is inverted by the reader's bit order**: the bits of the packed bytes are the
+bits written, followed by fewer than 8 zero padding bits. -/
+theorem bitsOf_packBits (bs : List Bool) :
+    ∃ pad : List Bool, pad.length < 8 ∧ C17.bitsOf (packBits bs) = bs ++ pad := by
+  fun_induction packBits bs with
+  | case1 b0 b1 b2 b3 b4 b5 b6 b7 rest ih =>
+    obtain ⟨pad, h1, h2⟩ := ih
+    refine ⟨pad, h1, ?_⟩
+    simp only [C17.bitsOf, List.flatMap_cons] at h2 ⊢
+    rw [h2, bitsOfByte_byteOfBits]; rfl
+  | case2 => exact ⟨[], by simp, rfl⟩
+  | case3 short h1 h2 =>
+    rcases short with _ | ⟨a0, _ | ⟨a1, _ | ⟨a2, _ | ⟨a3, _ | ⟨a4, _ | ⟨a5, _ | ⟨a6, _ | ⟨a7, rest⟩⟩⟩⟩⟩⟩⟩⟩
+    · exact absurd rfl h2
+    · exact ⟨List.replicate 7 false, by simp, by simp [C17.bitsOf, bitsOfByte_byteOfBits]⟩
+    · exact ⟨List.replicate 6 false, by simp, by simp [C17.bitsOf, bitsOfByte_byteOfBits]⟩
+    · exact ⟨List.replicate 5 false, by simp, by simp [C17.bitsOf, bitsOfByte_byteOfBits]⟩
+    · exact ⟨List.replicate 4 false, by simp, by simp [C17.bitsOf, bitsOfByte_byteOfBits]⟩
+    · exact ⟨List.replicate 3 false, by simp, by simp [C17.bitsOf, bitsOfByte_byteOfBits]⟩
+    · exact ⟨List.replicate 2 false, by simp, by simp [C17.bitsOf, bitsOfByte_byteOfBits]⟩
+    · exact ⟨List.replicate 1 false, by simp, by simp [C17.bitsOf, bitsOfByte_byteOfBits]⟩
+    · exact absurd rfl (h1 a0 a1 a2 a3 a4 a5 a6 a7 rest)
+
+theorem leafOKb_sound (t : Ty) (v : Val) (op : LeafOp) (h : leafOKb t v op = true) : leafOK t v op := by
+  cases op with
+  | dictSet i nv =>
+    simp only [leafOKb] at h
+    split at h
+    · rename_i fs an vs
+      simp only [Bool.and_eq_true, decide_eq_true_eq] at h
+      obtain ⟨hi, hrest⟩ := h
+      cases hf : fs[i]? with
+      | none => simp [hf] at hrest
+      | some nf =>
+        obtain ⟨name, ft⟩ := nf
+        simp only [hf, Bool.and_eq_true] at hrest
+        exact ⟨fs, an, vs, name, ft, rfl, rfl, hi, hf, hrest.1, hrest.2⟩
+    · cases h
+  | listSet i nv =>
+    simp only [leafOKb] at h
+    split at h
+    · rename_i et sz xs
+      simp only [Bool.and_eq_true, decide_eq_true_eq, Bool.not_eq_true', List.isEmpty_eq_false_iff] at h
+      exact ⟨et, sz, xs, rfl, rfl, h.1.1.1, h.1.1.2, h.1.2, h.2⟩
+    · cases h
+  | listClear i =>
+    simp only [leafOKb] at h
+    split at h
+    · rename_i et sz xs
+      simp only [decide_eq_true_eq] at h
+      exact ⟨et, sz, xs, rfl, rfl, h⟩
+    · cases h
+  | slice i j new =>
+    simp only [leafOKb] at h
+    split at h
+    · rename_i et sz xs
+      simp only [Bool.and_eq_true, decide_eq_true_eq, List.all_eq_true, Bool.not_eq_true', List.isEmpty_eq_false_iff] at h
+      exact ⟨et, sz, xs, rfl, rfl, h.1.1, h.1.2, fun x hx => ⟨(h.2 x hx).1.1, (h.2 x hx).1.2, (h.2 x hx).2⟩⟩
+    · cases h
+
+/-- **Writing then applying a nested update is the list/dict operation** — the round trip of
+`encodeNested` through `NestedProperty.read_and_apply`, for every entity, property, index
+path of any depth and leaf operation for which an encoding exists. No hypothesis about the
+shape of the header remains: the bytes are those `packBits` produces. -/
+theorem nested_encode_apply (reg : Registry) (e : Entity) (pi : Nat) (path : List Nat) (op : LeafOp)
+    (payload : Bytes) (h : encodeNested e pi path op = some payload) :
+    ∃ p v R out l raised, e.view.clientProps[pi]? = some p ∧ dictGet? e.client p.name = some v ∧
+      reach p.ty v path = some R ∧ leafResult R.ty.peel R.val op = some out ∧
+      applyNested reg e op.isSlice payload =
+        .ok ({ e with client := dictSet e.client p.name (R.rebuild out.val) }, l, raised) := by
+  unfold encodeNested at h
+  cases hp : e.view.clientProps[pi]? with
+  | none => simp [hp] at h
+  | some p =>
+    cases hv : dictGet? e.client p.name with
+    | none => simp [hp, hv] at h
+    | some v =>
+      cases hR : reach p.ty v path with
+      | none => simp [hp, hv, hR] at h
+      | some R =>
+        simp only [hp, hv, hR] at h
+        split at h
+        · rename_i hok
+          simp only [Option.some.injEq] at h
+          subst h
+          obtain ⟨pad, hpad, hbits⟩ := bitsOf_packBits (nestedBits e.view.clientProps.length pi R op)
+          have hb : C17.bitsOf (packBits (nestedBits e.view.clientProps.length pi R op)) =
+              true :: (natBits (bitsRequired e.view.clientProps.length) pi ++
+                (R.bits ++ false :: (leafBits R.val op ++ pad))) := by
+            rw [hbits]; simp [nestedBits]
+          obtain ⟨out, l, raised, h1, h2⟩ := nested_update_decodes reg e _ pi p v path R op pad hp hv hR
+            (leafOKb_sound _ _ _ hok) hb hpad
+          exact ⟨p, v, R, out, l, raised, rfl, hv, hR, h1, h2⟩
+        · cases h
+
+/-! ### the packet around the body, and the whole step -/
+
+/-- the packet layout around the body: id, slice flag, length, body -/
+theorem nested_payload_deserialize (jsonOk : Bytes → Bool) (id : Nat) (sl : Bool) (body : Bytes)
+    (hid : id < 2 ^ 32) (hlen : body.length < 2 ^ 32) :
+    deserialize jsonOk .nestedProperty (nestedPayload id sl body) = .ok (.nested id sl body) := by
+  have h1 : readUIntLE 4 (nestedPayload id sl body) =
+      .ok (id, [if sl then 1 else 0] ++ toLE 4 body.length ++ body) := by
+    have := readUIntLE_toLE 4 id ([if sl then 1 else 0] ++ toLE 4 body.length ++ body) (by simpa using hid)
+    simpa [nestedPayload, List.append_assoc] using this
+  have h2 : readIntLE 1 ([if sl then (1 : UInt8) else 0] ++ toLE 4 body.length ++ body) =
+      .ok ((if sl then 1 else 0), toLE 4 body.length ++ body) := by
+    cases sl <;> rfl
+  have h3 : readUIntLE 4 (toLE 4 body.length ++ body) = .ok (body.length, body) :=
+    readUIntLE_toLE 4 body.length body (by simpa using hlen)
+  simp only [deserialize, h1, h2, h3, bind, Except.bind, pure, Except.pure, if_true]
+  cases sl <;> rfl
+/-- **A nested-update packet, end to end through `stepNet`**: framed payload → deserialise →
+`read_and_apply` → world. For every non-wowp dialect, world, entity and encodable operation the
+entity is replaced by the one with the list/dict operation applied at the path; the log grows
+by the nested subscribers' calls; every other entity is untouched (`nested_world_frame`). -/
+theorem nested_packet_step (jsonOk : Bytes → Bool) (cfg : Config) (w : World) (np : NetPacket) (e : Entity)
+    (id pi : Nat) (path : List Nat) (op : LeafOp) (body : Bytes)
+    (hgame : cfg.dialect.game ≠ .wowp) (hk : cfg.dialect.kindOf np.type = some .nestedProperty)
+    (hpl : np.payload = nestedPayload id op.isSlice body) (hid : id < 2 ^ 32) (hlen : body.length < 2 ^ 32)
+    (he : w.get? id = some e) (henc : encodeNested e pi path op = some body) :
+    ∃ p v R out l, ∃ raised : Bool, e.view.clientProps[pi]? = some p ∧ dictGet? e.client p.name = some v ∧
+      reach p.ty v path = some R ∧ leafResult R.ty.peel R.val op = some out ∧
+      stepNet jsonOk cfg w np =
+        ⟨{ (w.put { e with client := dictSet e.client p.name (R.rebuild out.val) }) with log := w.log ++ l },
+          if raised then some .type else none⟩ := by
+  obtain ⟨p, v, R, out, l, raised, h1, h2, h3, h4, h5⟩ := nested_encode_apply cfg.reg e pi path op body henc
+  refine ⟨p, v, R, out, l, raised, h1, h2, h3, h4, ?_⟩
+  have hstep : step cfg w (.nested id op.isSlice body) = stepNested cfg w id op.isSlice body := by
+    unfold step
+    cases hg : cfg.dialect.game <;> simp_all
+  simp only [stepNet, hk, hpl, nested_payload_deserialize jsonOk id op.isSlice body hid hlen, hstep]
+  simp only [stepNested, he, h5]
+  cases raised <;> rfl
+
 /-! Non-vacuity of `nested_update_decodes`: a concrete entity, path `crew[0].ys`, slice `1:2 := [8, 9]`.
 Header bits `1 | prop 1 | 1 elem 0 | 1 field 1 | 0 | i=01 | j=10 | pad` = `EC C0`, data `08 09`. -/
 def exView : EntityView :=
@@ -660,5 +722,12 @@ example : (applyNested {} exEnt true [0xEC, 0xC0, 8, 9]).toOption.map (·.1.clie
 
 example : C17.bitsOf [0xEC, 0xC0] = true :: (natBits 1 1 ++ ([true, false, true, true] ++ false :: ((natBits 2 1 ++ natBits 2 2) ++ [false, false, false, false, false]))) := by
   decide
+
+/-- the encoder produces exactly that payload, so `nested_encode_apply` / `nested_packet_step`
+have a satisfiable premise -/
+example : encodeNested exEnt 1 [0, 1] (.slice 1 2 [.int 8, .int 9]) = some [0xEC, 0xC0, 8, 9] := by
+  rfl
+
+example : packBits [true, true, true, false, true, true, false, false, true, true] = [0xEC, 0xC0] := by decide
 
 end ReplayModel.C06
